@@ -269,6 +269,11 @@ def op_solve(case):
     case["ops"].append(("solve",))
 
 
+def op_fail(case, line):
+    case["lines"].append(line)
+    case["ops"].append(("fail", line))
+
+
 def dims(rng, size):
     if size == "tiny":
         n = rng.randint(2, 8)
@@ -385,6 +390,41 @@ def gen_outcome(rng, be, pre, idx, what):
     return case
 
 
+def gen_fault(rng, be, pre, idx, what):
+    """factorisation failures injected through the PIQP_VERIF hook of regularize_and_factorize: retry with iterative
+    refinement, regularisation bumps, NUMERICS exits — at the initial factorisation and inside the main loop"""
+    n, p, m = dims(rng, rng.choice(["tiny", "small", "small", "mid"]))
+    pr = Problem(rng, n, p, m, rng.choice(["sparse", "diag", "rank1"]), rng.choice(["sparse", "band"]), rng.random() < 0.5)
+    st = rng.choice([[], [("max_factor_retires", rng.randint(1, 4))], [("iterative_refinement_max_iter", rng.choice([0, 1, 3]))],
+                     [("iterative_refinement_eps_abs", 1e-30), ("iterative_refinement_eps_rel", 0.0),
+                      ("iterative_refinement_min_improvement_rate", 1.0)]])
+    case = new_case(f"fault_{what}_{be}_{pre}_{idx}", be, pre, st, {"kind": "fault:" + what, "n": n, "p": p, "m": m})
+    op_setup(case, pr, setup_names(pr, rng))
+
+    def fail_line():
+        if what == "first":
+            return "fail at 0"
+        if what == "burst":
+            return "fail at " + " ".join(str(i) for i in range(rng.randint(2, 6)))
+        if what == "all":
+            return "fail from 0"
+        if what == "late":
+            return f"fail from {rng.randint(1, 6)}"
+        return "fail at " + " ".join(str(i) for i in sorted(rng.sample(range(1, 12), rng.randint(1, 5))))
+    allowed = allowed_update_args(pr)
+    for _ in range(rng.randint(2, 3)):
+        op_fail(case, fail_line())
+        op_solve(case)
+        if rng.random() < 0.5:
+            op_fail(case, "fail")
+            op_solve(case)          # refinement stays enabled from the failed run on
+        op_update(case, pr, [a for a in allowed if rng.random() < 0.4], rng.random() < 0.5)
+    op_fail(case, "fail")
+    op_solve(case)
+    return case
+
+
+FAULTS = ["first", "burst", "all", "late", "mid"]
 OUTCOMES = ["primal_infeasible", "dual_infeasible", "max_iter", "nan", "huge", "tiny_reg"]
 
 
@@ -401,6 +441,8 @@ def gen_cases(chk, rng):
             for k in range(mult):
                 for w in OUTCOMES:
                     cases.append(gen_outcome(rng, be, pre, k, w))
+                for w in FAULTS:
+                    cases.append(gen_fault(rng, be, pre, k, w))
     return cases
 
 
@@ -488,18 +530,25 @@ def parse_line(l):
     m = LINE.match(l)
     if not m:
         return None
-    d = {"op": m.group(1), "head": m.group(2).strip(), "bytes": int(m.group(10)), "first": m.group(11),
-         "bt": [a for a in m.group(12).split(",") if a]}
+    d = {"op": m.group(1), "head": m.group(2).strip(), "bytes": int(m.group(10)), "first": m.group(11), "sites": []}
+    for part in m.group(12).split(";"):
+        if "x" in part:
+            hits, _, addrs = part.partition("x")
+            d["sites"].append((int(hits), tuple(a for a in addrs.split(",") if a)))
     for k, name in enumerate(COUNTERS):
         d[name] = int(m.group(3 + k))
     d["total"] = sum(d[n] for n in COUNTERS)
     return d
 
 
+_sym_cache = {}
+
+
 def symbolize(exe, addrs):
     """[(function, file:line)] innermost first, via addr2line on return addresses (minus one to land in the call)"""
-    if not addrs:
-        return []
+    key = (exe, tuple(addrs))
+    if key in _sym_cache:
+        return _sym_cache[key]
     pcs = []
     for a in addrs:
         try:
@@ -508,24 +557,34 @@ def symbolize(exe, addrs):
             continue
         if v < 0x10000000:                # the executable (non-PIE); shared-library frames cannot be resolved this way
             pcs.append(hex(v - 1))
-    if not pcs:
-        return []
-    rc, out = sh(["addr2line", "-f", "-C", "-i", "-e", exe] + pcs, timeout=120)
-    ls = out.splitlines()
-    return [(ls[i].strip(), ls[i + 1].strip() if i + 1 < len(ls) else "?") for i in range(0, len(ls), 2)]
+    res = []
+    if pcs:
+        rc, out = sh(["addr2line", "-f", "-C", "-i", "-e", exe] + pcs, timeout=120)
+        ls = out.splitlines()
+        res = [(ls[i].strip(), ls[i + 1].strip() if i + 1 < len(ls) else "?") for i in range(0, len(ls), 2)]
+    _sym_cache[key] = res
+    return res
+
+
+def _short(fn):
+    base = re.sub(r"\(.*$", "", fn)
+    for _ in range(6):
+        base = re.sub(r"<[^<>]*>", "", base)
+    return re.sub(r"[^A-Za-z0-9_=+*/-]", "", base.split("::")[-1]) or "anon"
 
 
 def call_site(frames):
-    """innermost frame that lies in PIQP's sources -> short stable name"""
-    for fn, loc in frames:
+    """(stable name, file:line) of the innermost frame in PIQP's sources; the name also carries the Eigen entry point
+    PIQP called there (operator name + hash of its full type), so that two different expressions in one function differ"""
+    import hashlib
+    for k, (fn, loc) in enumerate(frames):
         if "/piqp/" in loc and "halloc.cpp" not in loc:
-            base = re.sub(r"\(.*$", "", fn)
-            base = re.sub(r"<[^<>]*>", "", base)
-            base = re.sub(r"<[^<>]*>", "", base)
-            short = base.split("::")[-1] or "anon"
             f = re.sub(r".*/piqp/", "", loc).split(":")[0]
-            return re.sub(r"[^A-Za-z0-9_./-]", "", f"{f}/{short}")
-    return "unresolved"
+            tag = "direct"
+            if k > 0 and "halloc.cpp" not in frames[k - 1][1]:
+                tag = _short(frames[k - 1][0]) + "-" + hashlib.sha256(frames[k - 1][0].encode()).hexdigest()[:6]
+            return re.sub(r"[^A-Za-z0-9_./=+*-]", "", f"{f}/{_short(fn)}/{tag}"), re.sub(r".*/piqp/", "piqp/", loc)
+    return "unresolved", "?"
 
 
 # ----------------------------------------------------------------------------- the check
@@ -546,6 +605,8 @@ def parse_replay(path):
             c["ops"].append(("update", tuple(t[2:]), int(t[1]), (0, 0), (0, 0)))
         elif t[0] == "solve":
             c["ops"].append(("solve",))
+        elif t[0] == "fail":
+            c["ops"].append(("fail", l))
         elif t[0] == "pre":
             c["meta"]["pre"] = int(t[1])
     return [c]
@@ -561,7 +622,7 @@ def run(replay=None):
     src = [os.path.join(HARNESS, "halloc.cpp")]
 
     def build(be):
-        return be, build_cpp(f"halloc{be}", src, flags=FLAGS + [f"-DHBE={be}"], hooks=False)
+        return be, build_cpp(f"halloc{be}", src, flags=FLAGS + [f"-DHBE={be}"])      # -DPIQP_VERIF: fault-injection hook
 
     exes = {}
     with ThreadPoolExecutor(max_workers=5) as ex:
@@ -587,7 +648,7 @@ def run(replay=None):
         d = None
         for l in outs.get(c["name"]) or []:
             d = parse_line(l) or d
-        if d and all(d[k] >= 1 for k in COUNTERS) and d["bt"]:
+        if d and all(d[k] >= 1 for k in COUNTERS) and d["sites"]:
             probes_ok += 1
         else:
             chk.violation(f"harness:probe:be{c['be']}", "instrument self-test failed: known allocations inside an armed region were "
@@ -610,14 +671,18 @@ def run(replay=None):
     n_upd = n_sol = 0
     statuses, masks, sizes, per_cfg = {}, set(), [], {}
     grow = shrink = same = 0
-    errlines = 0
+    errlines = hook_lines = nohook_lines = n_faults = 0
     found = {}          # sig -> (size, text)
+    sites_seen = {}
+    solves_with_faults = {}
     n_bad_calls = 0
     for c in cases:
         lines = outs.get(c["name"])
         if lines is None:
             continue
         errlines += sum(1 for l in lines if l.startswith("error"))
+        hook_lines += sum(1 for l in lines if l.startswith("fail hook=1"))
+        nohook_lines += sum(1 for l in lines if l.startswith("fail hook=0"))
         recs = [parse_line(l) for l in lines]
         recs = [r for r in recs if r]
         armed_ops = [o for o in c["ops"] if o[0] in ("update", "solve")]
@@ -639,38 +704,46 @@ def run(replay=None):
                 m = re.search(r"status=(-?\d+)", r["head"])
                 st = m.group(1) if m else "?"
                 statuses[st] = statuses.get(st, 0) + 1
+                m = re.search(r"faults=(\d+)", r["head"])
+                if m and int(m.group(1)):
+                    n_faults += int(m.group(1))
+                    solves_with_faults[st] = solves_with_faults.get(st, 0) + 1
             if r["total"] == 0:
                 continue
             n_bad_calls += 1
-            frames = symbolize(exes[c["be"]], r["bt"])
-            site = call_site(frames)
-            sig = f"impl:alloc:{o[0]}:be{c['be']}:{PRE_NAME.get(c['meta']['pre'], '?')}:{site}"
             size = len(case_text(c))
-            if sig in found and found[sig][0] <= size:
-                continue
-            hist = []
-            ai = 0
-            for oo in c["ops"]:
-                mark = ""
-                if oo[0] in ("update", "solve"):
-                    mark = "   <-- allocates" if ai == k else ""
-                    ai += 1
-                hist.append("  " + (f"setup({', '.join(oo[1])})" if oo[0] == "setup" else
-                                    f"update({', '.join(oo[1])}; reuse_preconditioner={bool(oo[2])})" if oo[0] == "update" else "solve()") + mark)
-                if mark:
-                    break
-            text = (f"{o[0]}() allocated / freed heap memory: armed call #{k + 1} of the history ({r['op']} {r['head']})\n"
-                    f"observed: " + " ".join(f"{n}={r[n]}" for n in COUNTERS) + f" bytes_requested={r['bytes']} (first event: {r['first']})\n"
-                    "expected: all counters 0\n"
-                    f"configuration: back end {BE_NAME[c['be']]}, preconditioner {PRE_NAME.get(c['meta']['pre'], '?')}, "
-                    f"EIGEN_STACK_ALLOCATION_LIMIT={STACK_LIMIT}, meta={c['meta']}\n"
-                    "history up to the allocating call:\n" + "\n".join(hist) + "\n"
-                    "call stack of the first event (innermost first, inlined frames expanded):\n" +
-                    "\n".join(f"  {fn}  at {loc}" for fn, loc in frames[:40]) + "\n\n"
-                    f"reproduce: {exes[c['be']]} < (the input below)    [harness/halloc.cpp, flags {' '.join(FLAGS)} -DHBE={c['be']}]\n"
-                    f"input (back end {c['be']}):\n{case_text(c)}end of input\n")
-            found[sig] = (size, text)
-    for sig, (_, text) in sorted(found.items())[:10]:
+            for hits, addrs in (r["sites"] or [(0, ())]):
+                frames = symbolize(exes[c["be"]], addrs)
+                site, where = call_site(frames)
+                sites_seen[f"{BE_NAME[c['be']]}: {where} [{site}]"] = sites_seen.get(f"{BE_NAME[c['be']]}: {where} [{site}]", 0) + 1
+                sig = f"impl:alloc:{o[0]}:be{c['be']}:{PRE_NAME.get(c['meta']['pre'], '?')}:{site}"
+                if sig in found and found[sig][0] <= size:
+                    continue
+                hist = []
+                ai = 0
+                for oo in c["ops"]:
+                    mark = ""
+                    if oo[0] in ("update", "solve"):
+                        mark = "   <-- allocates" if ai == k else ""
+                        ai += 1
+                    hist.append("  " + (f"[hook] {oo[1]}" if oo[0] == "fail" else f"setup({', '.join(oo[1])})" if oo[0] == "setup" else
+                                        f"update({', '.join(oo[1])}; reuse_preconditioner={bool(oo[2])})" if oo[0] == "update" else "solve()") + mark)
+                    if mark:
+                        break
+                text = (f"{o[0]}() allocated / freed heap memory: armed call #{k + 1} of the history ({r['op']} {r['head']})\n"
+                        f"observed in that call: " + " ".join(f"{n}={r[n]}" for n in COUNTERS) + f" bytes_requested={r['bytes']} "
+                        f"(first event: {r['first']}; {len(r['sites'])} distinct call stacks, this one hit {hits} times)\n"
+                        "expected: all counters 0\n"
+                        f"allocation site: {where}\n"
+                        f"configuration: back end {BE_NAME[c['be']]}, preconditioner {PRE_NAME.get(c['meta']['pre'], '?')}, "
+                        f"EIGEN_STACK_ALLOCATION_LIMIT={STACK_LIMIT}, meta={c['meta']}\n"
+                        "history up to the allocating call:\n" + "\n".join(hist) + "\n"
+                        "call stack (innermost first, inlined frames expanded):\n" +
+                        "\n".join(f"  {fn[:200]}  at {loc}" for fn, loc in frames[:40]) + "\n\n"
+                        f"reproduce: {exes[c['be']]} < (the input below)    [harness/halloc.cpp, flags {' '.join(FLAGS)} -DHBE={c['be']}]\n"
+                        f"input (back end {c['be']}):\n{case_text(c)}end of input\n")
+                found[sig] = (size, text)
+    for sig, (_, text) in sorted(found.items())[:12]:
         chk.violation(sig, text)
     if errlines:
         chk.violation("harness:error-lines", f"{errlines} 'error' lines in the harness output (generator/protocol inconsistency)", True)
@@ -681,15 +754,21 @@ def run(replay=None):
     chk.cov["armed_solve_calls"] = n_sol
     chk.cov["armed_calls_with_nonzero_counters"] = n_bad_calls
     chk.cov["histories"] = len(cases)
+    chk.cov["allocation_sites_observed"] = sites_seen
     nontrivial = [c for c in cases if any(o[0] == "update" for o in c["ops"]) and any(o[0] == "solve" for o in c["ops"]) and outs.get(c["name"])]
     chk.cov["distinct_nontrivial"] = len({(c["be"], "\n".join(c["lines"])) for c in nontrivial})
     chk.cov["rule"] = ("histories = setup; (update(subset, reuse)*; solve+)* on generated problems; per back end x preconditioner: one "
                        "enumeration of all 256 argument subsets x both reuse values, random histories in four size classes "
                        "(n 2-8, 9-40, 41-150, 151-400) with settings variants, and six outcome-directed histories (box/primal "
-                       "infeasible, dual infeasible, max_iter 1-4, NaN, huge values, vanishing regularisation). evaluations = armed "
+                       "infeasible, dual infeasible, max_iter 1-4, NaN, huge values, vanishing regularisation) and five fault-injection histories "
+                       "(factorisation failures forced through the PIQP_VERIF hook: first call, bursts, all, late, scattered). evaluations = armed "
                        "update()/solve() calls; distinct_nontrivial = distinct (back end, history text) with at least one update and one "
                        "solve that ran to the end")
     chk.cov["statuses_seen"] = statuses
+    chk.cov["fault_hook"] = {"fail_commands_with_hook": hook_lines, "fail_commands_without_hook": nohook_lines,
+                             "factorisation_failures_injected": n_faults, "solves_with_injected_failures_by_status": solves_with_faults}
+    if nohook_lines:
+        chk.notes.append("the PIQP_VERIF fault hook is not present in this tree: the fault histories ran without injected failures")
     chk.cov["distinct_update_argsets_x_reuse"] = len(masks)
     chk.cov["updates_growing_finite_bound_set"] = grow
     chk.cov["updates_shrinking_finite_bound_set"] = shrink
@@ -701,7 +780,7 @@ def run(replay=None):
     chk.cov["eigen_stack_allocation_limit"] = STACK_LIMIT
     for c in ([c for c in cases if c["meta"]["kind"].startswith("random:small")][:1] + [c for c in cases if c["meta"]["kind"].startswith("outcome")][:1]):
         chk.sample({"case": c["name"], "meta": c["meta"],
-                    "ops": [(o[0] + ("(" + ",".join(o[1]) + (f";reuse={o[2]}" if o[0] == "update" else "") + ")" if len(o) > 1 else "()")) for o in c["ops"]][:14],
+                    "ops": [(o[1] if o[0] == "fail" else o[0] + ("(" + ",".join(o[1]) + (f";reuse={o[2]}" if o[0] == "update" else "") + ")" if len(o) > 1 else "()")) for o in c["ops"]][:14],
                     "harness_output": (outs.get(c["name"]) or [])[:6]})
     lean_txt = ("the Lean module PiqpProofs/Properties/C11.lean (shape ledger) was built and axiom-audited: "
                 f"{chk.cov.get('discharged', 0)} of {chk.cov.get('obligations', 0)} obligations" if have_lean else
